@@ -27,6 +27,8 @@ type Program struct {
 	globalDecls []string
 	writes      map[*ssa.Function]map[string]bool
 	ErrGlobals  []string
+	errMay      map[string]map[*ssa.Function]bool
+	errFieldSeen bool
 	ghostSorts  map[string]string
 }
 
@@ -110,7 +112,7 @@ func (p *Program) initGlobals() {
 	for i, n := range all {
 		c := "errG_" + sanitize(n)
 		p.globalDecls = append(p.globalDecls, fmt.Sprintf("(declare-const %s Iface)", c))
-		p.globalDecls = append(p.globalDecls, fmt.Sprintf("(assert (and (= (i-tag %s) 1) (= (i-ref %s) %d)))", c, c, 900000000000+i))
+		p.globalDecls = append(p.globalDecls, fmt.Sprintf("(assert (and (= (i-tag %s) 1) (= (i-ref %s) %d)))", c, c, 1+i)) // pre-allocated: below every alloc0 (>= 64), so a returned error may be one of them
 	}
 	p.globalDecls = append(p.globalDecls, "(assert (is-notexist errG_os_ErrNotExist))")
 	p.globalDecls = append(p.globalDecls, "(assert (not (is-exist errG_os_ErrNotExist)))")
@@ -432,4 +434,149 @@ func (p *Program) implementingTypes(iface types.Type) []types.Type {
 		}
 	}
 	return out
+}
+
+// ---------- provenance of the package's own error values ----------
+
+// mayReturnErr reports whether fn may return (or hand to its caller through a result) the package-level error value
+// named g. Errors are values that must come from somewhere: fn can produce g only if fn itself loads the global, or if it
+// calls - directly, through a closure it creates, through an interface whose implementations all lie in this package -
+// a function that can. Calls of unknown function values (callbacks) count as "may"; interface calls are followed into
+// the package's own implementations, and implementations outside the package are assumed, like every function outside
+// the package, not to return the package's sentinel errors. The argument needs that no error value is parked in the
+// heap: hasErrField is checked.
+func (p *Program) mayReturnErr(fn *ssa.Function, g string) bool {
+	if p.errMay == nil {
+		p.errMay = map[string]map[*ssa.Function]bool{}
+		p.errFieldSeen = p.hasErrField()
+	}
+	if p.errFieldSeen || fn == nil || fn.Blocks == nil {
+		return true
+	}
+	m := p.errMay[g]
+	if m == nil {
+		m = map[*ssa.Function]bool{}
+		p.errMay[g] = m
+		// fixpoint over all functions of the package (members, methods, closures)
+		all := map[*ssa.Function]bool{}
+		var add func(f *ssa.Function)
+		add = func(f *ssa.Function) {
+			if f == nil || all[f] || f.Blocks == nil {
+				return
+			}
+			all[f] = true
+			for _, af := range f.AnonFuncs {
+				add(af)
+			}
+		}
+		for _, mem := range p.Pkg.Members {
+			switch x := mem.(type) {
+			case *ssa.Function:
+				add(x)
+			case *ssa.Type:
+				for _, T := range []types.Type{x.Type(), types.NewPointer(x.Type())} {
+					ms := p.Prog.MethodSets.MethodSet(T)
+					for i := 0; i < ms.Len(); i++ {
+						add(p.Prog.MethodValue(ms.At(i)))
+					}
+				}
+			}
+		}
+		direct := func(f *ssa.Function) bool {
+			for _, b := range f.Blocks {
+				for _, in := range b.Instrs {
+					for _, op := range in.Operands(nil) {
+						if gl, ok := (*op).(*ssa.Global); ok && gl.Name() == g && gl.Pkg == p.Pkg {
+							return true
+						}
+					}
+					ci, ok := in.(ssa.CallInstruction)
+					if !ok {
+						continue
+					}
+					c := ci.Common()
+					if c.IsInvoke() {
+						// implementations outside the package are assumed not to return the package's sentinel errors
+						// (same assumption as for any function outside the package); in-package ones are followed below
+						continue
+					}
+					switch c.Value.(type) {
+					case *ssa.Function, *ssa.Builtin, *ssa.MakeClosure:
+					default:
+						return true // unknown function value (callback)
+					}
+				}
+			}
+			return false
+		}
+		for f := range all {
+			if direct(f) {
+				m[f] = true
+			}
+		}
+		for changed := true; changed; {
+			changed = false
+			for f := range all {
+				if m[f] {
+					continue
+				}
+				hit := false
+				for _, b := range f.Blocks {
+					for _, in := range b.Instrs {
+						if mc, ok := in.(*ssa.MakeClosure); ok && m[mc.Fn.(*ssa.Function)] {
+							hit = true
+						}
+						ci, ok := in.(ssa.CallInstruction)
+						if !ok {
+							continue
+						}
+						c := ci.Common()
+						if c.IsInvoke() {
+							for _, impl := range p.implementers(c.Value.Type(), c.Method) {
+								if m[impl] {
+									hit = true
+								}
+							}
+							continue
+						}
+						if cf, ok := c.Value.(*ssa.Function); ok && cf.Pkg == p.Pkg && m[cf] {
+							hit = true
+						}
+					}
+				}
+				if hit {
+					m[f] = true
+					changed = true
+				}
+			}
+		}
+	}
+	if fn.Pkg != p.Pkg && !(fn.Parent() != nil && fn.Parent().Pkg == p.Pkg) {
+		return false
+	}
+	return m[fn]
+}
+
+// hasErrField: does any struct type of the package keep an error (or an empty interface) in a field?
+func (p *Program) hasErrField() bool {
+	for _, mem := range p.Pkg.Members {
+		tm, ok := mem.(*ssa.Type)
+		if !ok {
+			continue
+		}
+		st, ok := tm.Type().Underlying().(*types.Struct)
+		if !ok {
+			continue
+		}
+		for i := 0; i < st.NumFields(); i++ {
+			ft := st.Field(i).Type()
+			if isErrType(ft) {
+				return true
+			}
+			if it, ok := ft.Underlying().(*types.Interface); ok && it.NumMethods() == 0 {
+				return true
+			}
+		}
+	}
+	return false
 }
